@@ -1,3 +1,4 @@
+import os
 """C15 — loading always ends with a usable database, without futile retries."""
 import hashlib
 import core
@@ -113,6 +114,7 @@ def _account(ctx, r):
 
 
 def run(ctx):
+    os.environ.setdefault("VERIF_STALL_S", "25")   # every load of this domain takes milliseconds: a stall is a retry loop that never ends
     ctx.stage_xlate(required_assertions=ASSERTIONS)
     ctx.stage_prove(THEOREMS)
     if not ctx.stage_build():
